@@ -13,6 +13,7 @@ from yamlpath.enums import (
     PathSearchMethods,
 )
 from yamlpath.common import Anchors, Nodes
+from yamlpath.exceptions import YAMLPathException
 from yamlpath.types import PathAttributes
 from yamlpath.path import SearchTerms
 
@@ -125,7 +126,12 @@ class Searches:
             else:
                 matches = haystack_text <= str(needle)
         elif method == PathSearchMethods.REGEX:
-            matcher = re.compile(needle)
+            try:
+                matcher = re.compile(needle)
+            except re.error as wrap_ex:
+                raise YAMLPathException(
+                    "Invalid regular expression, {}".format(wrap_ex),
+                    str(needle)) from wrap_ex
             matches = matcher.search(haystack_text) is not None
         else:
             raise NotImplementedError
